@@ -257,3 +257,16 @@ Definition rmap (f : name -> name) (r : result) : result :=
   | ROk t => ROk (tmap f t)
   | other => other
   end.
+
+(* ---- the keyed machine at an injective key is the machine of Conc.v, renamed ---------------- *)
+(* the state of the machine of Conc.v as the keyed machine holds it: the map and
+   SchemaCache.registered carry keys, the results handed to callers carry keys; heap (cells remember
+   their descriptor), lock, queue, program counters and outstanding calls are the same *)
+Section Rename.
+Variable key : name -> name.
+Definition kcmap (m : list (name * cellid)) : list (name * cellid) := map (fun e => (key (fst e), snd e)) m.
+Definition kmapS (sh : shared) : shared := mkShared (heap sh) (kcmap (cmap sh)) (map key (reg sh)) (failed sh).
+Definition kmapT (th : thread) : thread := mkThread (t_pc th) (t_calls th) (map (rmap key) (t_results th)).
+Definition kmapSt (st : state) : state := mkState (kmapS (s_sh st)) (s_lock st) (s_waitq st) (map kmapT (s_thr st)).
+
+End Rename.
